@@ -103,7 +103,8 @@ swarm_pool = /mnt/local/images/swarm
 """
 
 
-def draw_spec(rng, n_vms=None, max_depth=4, allow_multi_producer=True, allow_removable=True, allow_permanent=False):
+def draw_spec(rng, n_vms=None, max_depth=4, allow_multi_producer=True, allow_removable=True, allow_permanent=False,
+              state_equals_name=False):
     """Draw a random suite description (JSON-able)."""
     n_vms = n_vms or rng.choice([1, 2, 2, 3])
     letters = "ABCDEF"
@@ -124,7 +125,8 @@ def draw_spec(rng, n_vms=None, max_depth=4, allow_multi_producer=True, allow_rem
             continue
         name = f"s{len(setups) + 1}"
         level = "images" if rng.random() < 0.7 else "vms"
-        setup = {"name": name, "parent": parent, "parent_level": parent_level, "level": level, "state": f"st{len(setups) + 1}",
+        setup = {"name": name, "parent": parent, "parent_level": parent_level, "level": level,
+                 "state": name if state_equals_name else f"st{len(setups) + 1}",
                  "removable": allow_removable and rng.random() < 0.25,
                  "test_timeout": rng.choice([100, 100, 300, 50, 1000])}
         setups.append(setup)
